@@ -7,6 +7,7 @@ Op `pair_eval`: a base election and a perturbation of it, both evaluated by the 
   positional rules    PreConverted(RankedToPositionalVotes(scorer), Plurality): kinds 'lift', 'new'
   'approval'          PreConverted(ApprovalToSimpleVotes(), Plurality): kinds 'approve', 'new'
   'score_sum'         ScoreVoting('sum', unscored_value=None|0|1|2|5|'min'): kinds 'raise', 'new'
+  'score_gen'         ScoreVoting('sum'|'mean'|'median', unscored_value=None|number|'min'|'max'|'mean'|'median'|a lambda): kind 'raise'
   'score_trunc'       ScoreVoting('sum'|'mean', unscored_value, min_count, truncation=count|fraction): kind 'raise' only
                       (a new ballot changes the trimming cutoff and every mean: not an improvement of w alone)
   'bucklin'           PreferenceAddition(): kinds 'lift', 'new' (bullet ballot)
@@ -56,7 +57,9 @@ REQUIRED = ['ha_house_monotone', 'ha_house_monotone_general', 'ha_vote_monotone'
             'coef_list_ok', 'preference_addition_monotone_lift', 'preference_addition_monotone_bullet',
             'preference_addition_default_monotone_lift', 'minimax_monotone_added', 'minimax_monotone_new_full', 'bucklin_whole_join_witness', 'preference_addition_whole_join_witness', 'bucklin_new_full_witness', 'bucklin_default_new_full_witness',
             'copeland_new_full_witness', 'minimax_wv_new_full_witness', 'schulze_new_full_witness']
-UNPROVED = ['*_monotone_join (the move "w joins the rank directly above it", Lean `joinAbove`): generated for every ranked rule, '
+UNPROVED = ['score_gen_monotone_raise (ScoreVoting with function sum / mean / median and a named or callable fill-in value: modelled as '
+            'evalScoreGen with multiset semantics, checked by correspondence and oracle on every raise)',
+            '*_monotone_join (the move "w joins the rank directly above it", Lean `joinAbove`): generated for every ranked rule, '
             'checked by correspondence and oracle; holds on the implementation for the positional rules (SequenceBased: convex sequences '
             'only), Copeland, minimax, Schulze and PreferenceAddition with split shared ranks; refuted by witness theorems for unsplit '
             'shared ranks; no positive theorem yet',
@@ -83,7 +86,7 @@ PA_RULES = ['pa_list', 'pa_list_whole', 'pa_call', 'pa_call_whole']
 PA_WHOLE = ['pa_list_whole', 'pa_call_whole']
 PA_LISTS = [['1', '1/2', '1/3', '1/4'], ['1', '1/2', '1/3'], ['1', '1', '1/2'], ['1'], ['1', '1/2'], ['2', '1', '1', '1/2'], ['1', '0'], ['1', '3/4', '1/2', '1/4']]
 RANKED_RULES = POSITIONAL + BULLET_RULES + PA_RULES
-ALL_RULES = ['ha', 'plurality'] + POSITIONAL + ['approval', 'score_sum', 'score_trunc'] + BULLET_RULES
+ALL_RULES = ['ha', 'plurality'] + POSITIONAL + ['approval', 'score_sum', 'score_trunc', 'score_gen'] + BULLET_RULES
 
 
 # ------------------------------------------------------------------------------------------------
@@ -115,7 +118,7 @@ def py_profile(rule, prof, wtype=None, stype=None):
     elif rule == 'approval':
         for b, s in prof:
             out[frozenset(NAMES.n(c) for c in b['set'])] = _num(s, wtype)
-    elif rule in ('score_sum', 'score_trunc'):
+    elif rule in ('score_sum', 'score_trunc', 'score_gen'):
         for b, s in prof:
             out[frozenset((NAMES.n(c), _num(x, stype)) for c, x in b['set'])] = _num(s)
     else:
@@ -348,6 +351,53 @@ def _score_fill(prof, c, param):
     return Fraction(param)
 
 
+def _list_fn(name, vals):
+    """the named function on a non-empty list of Fractions, from its textbook definition"""
+    v = sorted(vals)
+    if name == 'sum':
+        return sum(v, Fraction(0))
+    if name == 'mean':
+        return sum(v, Fraction(0)) / len(v)
+    if name == 'median':
+        k = len(v)
+        return v[k // 2] if k % 2 else (v[k // 2 - 1] + v[k // 2]) / 2
+    if name == 'min':
+        return v[0]
+    if name == 'max':
+        return v[-1]
+    if name == 'midrange':
+        return (v[0] + v[-1]) / 2
+    return Fraction(name)
+
+
+def _cand_scores(prof, c):
+    vals, absent = [], 0
+    for b, s in prof:
+        d = dict((c2, Fraction(x)) for c2, x in b['set'])
+        if c in d:
+            vals += [d[c]] * int(Fraction(s))
+        else:
+            absent += int(Fraction(s))
+    return vals, absent
+
+
+def ref_score_gen(param, prof):
+    """function (sum / mean / median) of every candidate's multiset of scores; with a fill-in the voters who did not score
+    the candidate count as the number, or as the named function (min, max, mean, median, midrange) of that multiset"""
+    cs = []
+    for b, _ in prof:
+        for c, _ in b['set']:
+            if c not in cs:
+                cs.append(c)
+    out = {}
+    for c in cs:
+        vals, absent = _cand_scores(prof, c)
+        if param['unscored'] is not None:
+            vals = vals + [_list_fn(param['unscored'], vals)] * absent
+        out[c] = _list_fn(param['fn'], vals)
+    return out
+
+
 def ref_score_trunc(param, prof):
     """trimmed sum / trimmed mean of every candidate, from the definition: the scores of a candidate as a multiset (a
     ballot that does not score it counts as the unscored value, if one is set), fewer than min_count scores -> min_count
@@ -399,6 +449,8 @@ def ref_scores(rule, param, prof):
         return sc
     if rule == 'score_trunc':
         return ref_score_trunc(param, prof)
+    if rule == 'score_gen':
+        return ref_score_gen(param, prof)
     if rule == 'score_sum':
         for b, s in prof:
             for c, x in b['set']:
@@ -554,6 +606,13 @@ def _evaluator(rule, param, stype=None):
     if rule == 'score_sum':
         un = None if param is None else ('min' if param == 'min' else _num(param, stype))
         return vcard.ScoreVoting('sum', unscored_value=un)
+    if rule == 'score_gen':
+        un = param['unscored']
+        if un == 'midrange':
+            un = lambda xs: Fraction(min(xs) + max(xs), 2)      # noqa: E731  (an arbitrary callable)
+        elif un is not None and un not in ('min', 'max', 'mean', 'median'):
+            un = _num(un, stype)
+        return vcard.ScoreVoting(param['fn'], unscored_value=un)
     if rule == 'score_trunc':
         tr = param['trunc']
         tr = 0 if tr is None else (tr['count'] if 'count' in tr else Fraction(tr['frac']))
@@ -1127,6 +1186,83 @@ def score_trunc_moves(param, base, rng=None, per_cand=10):
     return out
 
 
+SCORE_GEN_UNSCORED = [None, '0', '3', 'min', 'max', 'mean', 'median', 'midrange']
+
+
+def score_gen_moves(param, base, rng=None, per_cand=8):
+    """score raises under ScoreVoting(function, unscored_value) for EVERY candidate: a scored candidate gets a higher score
+    (in particular a NEW distinct value); an unscored one gets a score at least as large as what the ballot counts for it
+    now (the fill-in value of the base profile); without a fill-in only under the plain sum (any non-negative score)"""
+    out = []
+    ref = ref_scores('score_gen', param, base)
+    m = max(ref.values())
+    top = [c for c, v in ref.items() if v == m]
+    ref_w = top[0] if len(top) == 1 else None
+    grid = [Fraction(k) for k in range(0, 12)]
+    for w in sorted(ref):
+        cases = []
+        vals, absent = _cand_scores(base, w)
+        fill = None if param['unscored'] is None else _list_fn(param['unscored'], vals)
+        for bi, (b, s) in enumerate(base):
+            cur = dict((c, Fraction(x)) for c, x in b['set'])
+            if w in cur:
+                targets = [t for t in grid if t > cur[w]]
+            elif fill is not None:
+                targets = [t for t in grid if t >= fill]
+            elif param['fn'] == 'sum':
+                targets = grid[:6]
+            else:
+                targets = []
+            for t in targets:
+                nb = {'set': sorted([c, num_str(t if c == w else x)] for c, x in list(cur.items()) + ([(w, t)] if w not in cur else []))}
+                tags = ['score_gen:raise', f"score_gen:fn_{param['fn']}", f"score_gen:unscored_{param['unscored']}"]
+                if t not in vals:
+                    tags.append('score_gen:raise_to_new_distinct_value')
+                if absent and w in cur:
+                    tags.append('score_gen:raised_candidate_unscored_by_some')
+                if len(set(vals)) < len(vals):
+                    tags.append('score_gen:repeated_scores')
+                if w not in cur:
+                    tags.append('score_gen:raise_unscored')
+                cases.append(_mk('score_gen', param, base, replace_unit(base, bi, nb), w, 'raise',
+                                 {'kind': 'raise', 'ballot': bi, 'score': num_str(t)}, tags))
+        if rng is not None and len(cases) > per_cand:
+            keep = [c for c in cases if 'score_gen:raise_to_new_distinct_value' in c['_tags']
+                    and 'score_gen:raised_candidate_unscored_by_some' in c['_tags']]
+            keep = rng.sample(keep, min(len(keep), per_cand // 2))
+            other = [c for c in cases if c not in keep]
+            cases = keep + rng.sample(other, min(len(other), per_cand - len(keep)))
+        if w == ref_w:
+            _tag_premise(cases, 'score_gen')
+        for c in cases:
+            c['_stype'] = 'frac'              # Fractions throughout: statistics.median of ints would return floats
+        out += cases
+    return out
+
+
+def gen_score_gen(rng, n_prof):
+    for k in range(n_prof):
+        param = {'fn': ['sum', 'sum', 'mean', 'median'][k % 4], 'unscored': SCORE_GEN_UNSCORED[(k // 4) % len(SCORE_GEN_UNSCORED)]}
+        m = rng.randint(2, 3)
+        base = []
+        total = 0
+        target = rng.randint(6, 12)
+        palette = rng.sample(range(0, 11), 3)            # few distinct values: unevenly repeated scores
+        while total < target:
+            k2 = rng.randint(1, m)
+            b = {'set': sorted([c, str(rng.choice(palette))] for c in rng.sample(range(m), k2))}
+            wgt = min(rng.choice([1, 1, 2, 3]), target - total)
+            total += wgt
+            for e in base:
+                if e[0] == b:
+                    e[1] = str(int(e[1]) + wgt)
+                    break
+            else:
+                base.append([b, str(wgt)])
+        for c in score_gen_moves(param, base, rng):
+            yield c
+
+
 def _score_trunc_param(rng):
     return {'fn': rng.choice(['sum', 'mean']),
             'unscored': rng.choice([None, None, '0', '2']),
@@ -1602,7 +1738,11 @@ def directed_cases():
     # the wider reading of the new ballot (w first, others below): minimal cases in which the RULE ITSELF lets w lose
     for rule, param, base, w, nb in NEW_FULL_WITNESSES:
         c = _mk(rule, param, base, add_ballot(base, nb), w, 'new_full', {'kind': 'new', 'ballot': nb},
-                [f'{rule}:new_full', f'{rule}:premise', 'directed', 'new_full_rule_level_failure', 'bucklin:lift_out_of_shared3', 'score:truncation_raise_creates_new_extreme', 'score:truncation_removes_group_and_part', 'score_trunc:raise',
+                [f'{rule}:new_full', f'{rule}:premise', 'directed', 'new_full_rule_level_failure', 'bucklin:lift_out_of_shared3', 'score_gen:raise_to_new_distinct_value', 'score_gen:raised_candidate_unscored_by_some', 'score_gen:repeated_scores',
+                      'score_gen:raise_unscored', 'score_gen:premise', 'score_gen:fn_sum', 'score_gen:fn_mean', 'score_gen:fn_median',
+                      'score_gen:unscored_None', 'score_gen:unscored_0', 'score_gen:unscored_3', 'score_gen:unscored_min',
+                      'score_gen:unscored_max', 'score_gen:unscored_mean', 'score_gen:unscored_median', 'score_gen:unscored_midrange',
+                      'score:truncation_raise_creates_new_extreme', 'score:truncation_removes_group_and_part', 'score_trunc:raise',
                       'score_trunc:sum', 'score_trunc:mean', 'score_trunc:trunc_count', 'score_trunc:trunc_frac',
                       'score_trunc:trunc_none', 'score_trunc:unscored_value', 'score_trunc:min_count', 'score_trunc:raise_unscored',
                       'score_trunc:premise', 'bucklin_coef:list_shorter_than_ballot', 'pa_list_whole:lift_out_of_shared_below_first',
@@ -1700,6 +1840,15 @@ def directed_cases():
         nb = join_above(base[bi][0], w)
         out.append(_mk(rule, param, base, replace_unit(base, bi, nb), w, 'join', {'kind': 'join', 'ballot': bi},
                        [f'{rule}:join', f'{rule}:premise', 'directed', 'join_rule_level_failure']))
+    # score-sum with a CALLABLE fill-in: W (=0) is left unscored by three voters and holds unevenly repeated scores (0, 0, 10,
+    # 10, 10); one voter raises W from 0 to the NEW value 1 (X = 1)
+    base = [[{'set': [[0, '0'], [1, '5']]}, '2'], [{'set': [[0, '10'], [1, '5']]}, '2'], [{'set': [[0, '10'], [1, '6']]}, '1'],
+            [{'set': [[1, '6']]}, '3']]
+    for fn in ('sum', 'mean', 'median'):
+        for un in ('mean', 'median', 'midrange', 'min', 'max', None):
+            for c in score_gen_moves({'fn': fn, 'unscored': un}, base):
+                c['_tags'].append('directed')
+                out.append(c)
     # highest averages: exact quotient tie at the last seat, cap binding, previous gains
     cfg = {'divisor': 'd_hondt', 'first_coef': None, 'votes': [[0, '6'], [1, '3'], [2, '3']], 'n': 3, 'prev': [], 'max': []}
     out += [dict(c, _tags=c['_tags'] + ['directed', 'ha:tie_in_base']) for c in ha_pairs(cfg, [])]
@@ -1913,6 +2062,8 @@ def _generate(rng, tier):
     for c in gen_score_typed(rng, 25 if quick else 500):
         yield c
     for c in gen_score_trunc(rng, 60 if quick else 1200):
+        yield c
+    for c in gen_score_gen(rng, 96 if quick else 1600):
         yield c
     if not quick:
         for c in exhaustive_cases():
